@@ -725,9 +725,11 @@ class EncodingParser(object):
         return self.data.jumpTo(b"-->")
 
     def handleMeta(self):
-        if self.data.currentByte not in spaceCharactersBytes:
-            # if we have <meta not followed by a space so just keep going
-            return True
+        if self.data.currentByte not in spaceCharactersBytes | frozenset([b"/"]):
+            # <meta not followed by a space or slash: "meta" is only the
+            # beginning of the name of some other tag
+            self.data.position -= len(b"meta")
+            return self.handlePossibleTag(False)
         # We have a valid meta element we want to search for attributes
         hasPragma = False
         pendingEncoding = None
